@@ -94,6 +94,27 @@ Proof.
   rewrite X. reflexivity.
 Qed.
 
+(** The same for a report that went through the issue manager ([Report] then the worker's
+    [Deliver]): the worker receives the one pending marker and handles it exactly as above. *)
+Theorem failover_immediate_delivered :
+  forall (c : cfg) (s : st) (now : N) (m : marker),
+    s_dead s = false -> s_chan s = [m] ->
+    fst (step pol decay c s (Deliver now)) = handle_issue decay c s now m [] /\
+    (forall s0, s_dead s0 = false -> s_chan s0 = [] ->
+       s_cached s0 = s_cached s -> s_active s0 = s_active s ->
+       s_active (fst (step pol decay c s0 (Direct now m))) = s_active (fst (step pol decay c s (Deliver now)))).
+Proof.
+  intros c s now m Hd Hc. split.
+  - unfold step. rewrite Hd, Hc. reflexivity.
+  - intros s0 Hd0 Hc0 Ec Ea. unfold step. rewrite Hd, Hc, Hd0, Hc0. cbn [fst].
+    unfold handle_issue, with_cached_active. rewrite Ec, Ea.
+    destruct (negb _); [cbn; congruence|].
+    destruct (ingest_path_issue decay m now (opt_fp (s_active s)) (s_cached s)) as [cs1 h1].
+    destruct (drain decay c now (opt_fp (s_active s)) [] cs1) as [cs2 h2].
+    destruct (h1 || h2); [|cbn; congruence].
+    destruct (maybe_update_active decay c now (rank decay now cs2) (s_active s)) as [act pn]. reflexivity.
+Qed.
+
 (** Traffic does not return while the penalty is fresh: whenever the slot is re-evaluated
     (after a lookup, after an issue) and the active path is valid, it stays as long as no
     cached entry's score exceeds the active entry's by more than the swap threshold -- in
@@ -130,6 +151,7 @@ Proof. exact (rel_score_vanishes decay). Qed.
 End C07.
 Print Assumptions unmatched_issue_is_noop.
 Print Assumptions failover_immediate.
+Print Assumptions failover_immediate_delivered.
 Print Assumptions no_return_while_fresh.
 Print Assumptions eligible_after_decay.
 
